@@ -299,8 +299,13 @@ class SyncHarness:
         return srv
 
     def run(self, segments, app, eof=False, send_pattern=(-1,), sndbuf=65536,
-            addr=("127.0.0.1", 50000), max_steps=None, on_step=None):
-        """Run one connection to quiescence.  `app` is a WSGI callable."""
+            addr=("127.0.0.1", 50000), max_steps=None, on_step=None, lazy=False):
+        """Run one connection to quiescence.  `app` is a WSGI callable.
+
+        lazy=False: queued tasks run to completion after every I/O event (a
+        fast worker).  lazy=True: a queued task runs only when no I/O event is
+        possible (a slow worker): the channel gets every chance to keep
+        reading while a request is pending."""
         srv = self.server
         srv._vf_trampoline.target = app
         disp = self.dispatcher
@@ -314,6 +319,8 @@ class SyncHarness:
         if max_steps is None:
             max_steps = 50 + 4 * len(segments) + total // max(1, min(srv.adj.recv_bytes, 512)) * 4
             max_steps += 16 * (len(send_pattern) + 4)
+            if lazy:
+                max_steps *= 2
         steps = 0
         hung = False
         fd = conn.fileno()
@@ -327,19 +334,19 @@ class SyncHarness:
             if m.get(fd) is ch and ch.readable() and conn.has_input():
                 wasyncore.read(ch)
                 progress = True
-            while disp.queue:
-                task = disp.queue.popleft()
-                try:
-                    task.service()
-                except BaseException as e:  # as handler_thread does
-                    _exc_log.append({"type": type(e).__name__, "msg": str(e)[:200], "where": ["task.service"]})
-                progress = True
             if m.get(fd) is ch and ch.writable():
                 before = (len(conn.sent), conn.send_i, ch.will_close, ch.close_when_flushed)
                 wasyncore.write(ch)
                 after = (len(conn.sent), conn.send_i, ch.will_close, ch.close_when_flushed)
                 if before != after or m.get(fd) is not ch:
                     progress = True
+            while disp.queue and not (lazy and progress):
+                task = disp.queue.popleft()
+                try:
+                    task.service()
+                except BaseException as e:  # as handler_thread does
+                    _exc_log.append({"type": type(e).__name__, "msg": str(e)[:200], "where": ["task.service"]})
+                progress = True
             try:
                 srv.trigger.handle_read()
             except Exception:
